@@ -36,7 +36,7 @@ func cterm(v value) (*Term, bool) {
 	return t, true
 }
 
-func goErr(p *Path, msg string) value {
+func goErr(p *Path, msg value) value {
 	// an error value of type *errors.errorString
 	ep := p.eng.lp.pkgs["errors"]
 	t := ep.Type("errorString").Object().Type()
@@ -421,7 +421,7 @@ func registerIntrinsics(e *Engine) {
 	in["fmt.Sprint"] = fmtS("fmt.Sprint", -1)
 	in["fmt.Errorf"] = func(p *Path, c *frame, f *ssa.Function, a []value) (value, bool) {
 		s, _ := fmtS("fmt.Errorf", 0)(p, c, f, a)
-		return goErr(p, s.(string)), true
+		return goErr(p, s), true
 	}
 	in["fmt.Fprintf"] = func(p *Path, _ *frame, _ *ssa.Function, a []value) (value, bool) {
 		return tuple{ConstInt(64, 0), iface{}}, true
